@@ -877,6 +877,338 @@ fn worker_leg(sh: &Shared, seed: u64, walks: usize, len: usize) -> Value {
            "routed_under_default_certificate_as_listed_deviation": deviation_explained})
 }
 
+// ---------------------------------------------------------------------------------------------
+// listener leg (spec/CertListener.tla): certificate commands INTERLEAVED WITH LISTENER OPERATIONS on a real
+// worker with up to two HTTPS listeners (UpdateHttpsListener with / without alpn_protocols, DeactivateListener,
+// ActivateListener, RemoveListener, AddHttpsListener with other TLS versions / cipher list on the same address);
+// after every step a real TLS handshake over TCP for every probe name on every active listener; the leaf the
+// worker presents must be in the set the specification admits for that address.
+//   --mode listener        S->I: the histories and predictions come from TLC (Gen_CertListener, --hist FILE)
+//   --mode listener-drive  I->S: seeded random commands chosen without the spec, observations recorded as an
+//                          ndjson trace (--trace-out) that TLC validates against Trace_CertListener.tla
+
+mod lst {
+    use super::*;
+    use sozu_command_lib::config::ListenerBuilder;
+    use sozu_command_lib::proto::command::{ActivateListener, AlpnProtocols, DeactivateListener, HardStop, ListenerType, RemoveCertificate,
+        RemoveListener, ResponseStatus, TlsVersion, UpdateHttpsListenerConfig, request::RequestType};
+    use std::net::{SocketAddr, TcpStream};
+    use std::time::Duration;
+    use vh::worker::{Worker, free_addr};
+
+    #[derive(Clone, Debug)]
+    pub struct LOp { pub kind: String, pub a: usize, pub v: usize, pub f: usize, pub k: String }
+    pub struct LExp { pub st: String, pub alpn: String, pub flav: String, pub adm: Vec<Vec<u8>>, pub dev: bool }
+    pub struct LStep { pub op: LOp, pub exp: Option<Vec<LExp>> }
+
+    impl LOp {
+        pub fn to_json(&self) -> Value { json!({"kind": self.kind, "a": self.a, "v": self.v, "f": self.f, "k": self.k}) }
+        pub fn from_json(o: &Value) -> LOp {
+            LOp { kind: o["kind"].as_str().unwrap_or("").to_string(), a: o["a"].as_u64().unwrap_or(0) as usize,
+                  v: o["v"].as_u64().unwrap_or(0) as usize, f: o["f"].as_u64().unwrap_or(0) as usize, k: o["k"].as_str().unwrap_or("").to_string() }
+        }
+        fn cert_kind(&self) -> Option<Kind> {
+            match self.kind.as_str() { "add" => Some(Kind::Add), "remove" => Some(Kind::Remove), "replace" => Some(Kind::Replace),
+                "replace_fail" => Some(Kind::ReplaceFail), "replace_badold" => Some(Kind::ReplaceBadOld), _ => None }
+        }
+    }
+
+    pub fn parse_history(v: &Value) -> Vec<LStep> {
+        v.as_array().expect("history = array of steps").iter().map(|s| {
+            let exp = s.get("exp").and_then(|e| e.as_array()).map(|es| es.iter().map(|e| LExp {
+                st: e["st"].as_str().unwrap().to_string(), alpn: e["alpn"].as_str().unwrap_or("").to_string(),
+                flav: e["flav"].as_str().unwrap_or("").to_string(),
+                adm: e["adm"].as_array().unwrap().iter().map(u8s).collect(), dev: e["dev"].as_bool().unwrap_or(false) }).collect());
+            LStep { op: LOp::from_json(&s["op"]), exp }
+        }).collect()
+    }
+
+    pub fn describe_lop(g: &Graph, c: &Conc, o: &LOp) -> String {
+        let cert = |k: Kind| describe_op(g, c, &Op { kind: k, v: o.v, f: o.f });
+        match o.cert_kind() {
+            Some(k) => format!("[listener {}] {}", o.a, cert(k)),
+            None => format!("[listener {}] {}{}", o.a, o.kind, if o.k.is_empty() { String::new() } else { format!(" {}", o.k) }),
+        }
+    }
+
+    /// outcome of one TLS handshake attempt over TCP
+    #[derive(Debug, Clone)]
+    pub enum Hs {
+        /// leaf presented (0 default, 1..nfp), negotiated ALPN, TLS 1.3?
+        Served(u8, String, bool),
+        UnknownLeaf,
+        Refused,
+        /// the connection was accepted but the handshake failed (alert, reset, eof)
+        Failed(String),
+        /// nothing happened within the deadline: no verdict
+        Timeout(String),
+    }
+
+    pub struct Client { pub rec: Arc<hs::Recorder>, pub cfg: Arc<rustls::ClientConfig> }
+
+    pub fn client() -> Client {
+        let rec = Arc::new(hs::Recorder(Mutex::new(None)));
+        let provider = Arc::new(rustls::crypto::ring::default_provider());
+        let mut cfg = rustls::ClientConfig::builder_with_provider(provider).with_safe_default_protocol_versions().unwrap()
+            .dangerous().with_custom_certificate_verifier(rec.clone()).with_no_client_auth();
+        cfg.alpn_protocols = vec![b"h2".to_vec(), b"http/1.1".to_vec()];
+        // a resumed session would not present the certificate again
+        cfg.resumption = rustls::client::Resumption::disabled();
+        Client { rec, cfg: Arc::new(cfg) }
+    }
+
+    pub fn handshake(c: &Conc, cl: &Client, addr: SocketAddr, sni: &str, t: Duration) -> Hs {
+        use std::io::ErrorKind as K;
+        *cl.rec.0.lock().unwrap() = None;
+        let name = match rustls::pki_types::ServerName::try_from(sni.to_string()) { Ok(n) => n, Err(e) => return Hs::Failed(format!("sni: {e}")) };
+        let conn = match rustls::ClientConnection::new(cl.cfg.clone(), name) { Ok(c) => c, Err(e) => return Hs::Failed(format!("client: {e}")) };
+        let tcp = match TcpStream::connect_timeout(&addr, t) {
+            Ok(s) => s,
+            Err(e) if e.kind() == K::ConnectionRefused => return Hs::Refused,
+            Err(e) => return Hs::Timeout(format!("connect: {e}")),
+        };
+        tcp.set_read_timeout(Some(t)).ok();
+        tcp.set_write_timeout(Some(t)).ok();
+        tcp.set_nodelay(true).ok();
+        let mut s = rustls::StreamOwned::new(conn, tcp);
+        while s.conn.is_handshaking() {
+            if let Err(e) = s.conn.complete_io(&mut s.sock) {
+                return match e.kind() {
+                    K::WouldBlock | K::TimedOut => Hs::Timeout(format!("handshake: {e}")),
+                    _ => Hs::Failed(format!("handshake: {e}")),
+                };
+            }
+        }
+        let alpn = s.conn.alpn_protocol().map(|p| String::from_utf8_lossy(p).to_string()).unwrap_or_default();
+        let tls13 = s.conn.protocol_version() == Some(rustls::ProtocolVersion::TLSv1_3);
+        s.conn.send_close_notify();
+        let _ = s.conn.complete_io(&mut s.sock);
+        let leaf = match cl.rec.0.lock().unwrap().clone() { Some(l) => l, None => return Hs::Failed("no certificate presented".into()) };
+        if leaf == c.default_fp { return Hs::Served(0, alpn, tls13); }
+        match c.fps.iter().position(|f| f.0 == leaf) { Some(k) => Hs::Served(k as u8 + 1, alpn, tls13), None => Hs::UnknownLeaf }
+    }
+
+    /// the concrete command of an operation; (request, must the worker answer Failure?)
+    pub fn request(g: &Graph, c: &Conc, o: &LOp, addr: SocketAddr, rng: &mut Rng) -> (RequestType, bool) {
+        if let Some(kind) = o.cert_kind() {
+            let req = build(g, c, &Op { kind, v: o.v, f: o.f }, addr.into(), rng);
+            return match req {
+                Req::Add(a, _) => (RequestType::AddCertificate(a), false),
+                Req::Remove(f) => (RequestType::RemoveCertificate(RemoveCertificate { address: addr.into(), fingerprint: hex_of(&f, rng) }), false),
+                Req::Replace(r, _, fail) => (RequestType::ReplaceCertificate(r), fail),
+            };
+        }
+        match o.kind.as_str() {
+            "add_listener" => {
+                let mut l = ListenerBuilder::new_https(addr.into()).to_tls(None).expect("https listener config");
+                match o.k.as_str() {
+                    "tls12" => l.versions = vec![TlsVersion::TlsV12 as i32],
+                    "tls13" => l.versions = vec![TlsVersion::TlsV13 as i32],
+                    "ciphers" => l.cipher_list = ["TLS13_AES_128_GCM_SHA256", "TLS_ECDHE_ECDSA_WITH_AES_128_GCM_SHA256", "TLS_ECDHE_RSA_WITH_AES_128_GCM_SHA256"]
+                        .iter().map(|s| s.to_string()).collect(),
+                    _ => {}
+                }
+                l.strict_sni_binding = Some(rng.below(2) == 0);
+                (RequestType::AddHttpsListener(l), false)
+            }
+            "remove_listener" => (RequestType::RemoveListener(RemoveListener { address: addr.into(), proxy: ListenerType::Https.into() }), false),
+            "activate" => (RequestType::ActivateListener(ActivateListener { address: addr.into(), proxy: ListenerType::Https.into(), from_scm: false }), false),
+            "deactivate" => (RequestType::DeactivateListener(DeactivateListener { address: addr.into(), proxy: ListenerType::Https.into(), to_scm: false }), false),
+            "patch" => {
+                let mut p = UpdateHttpsListenerConfig { address: addr.into(), ..Default::default() };
+                let set = |v: &[&str]| Some(AlpnProtocols { values: v.iter().map(|s| s.to_string()).collect() });
+                match o.k.as_str() {
+                    "both" => p.alpn_protocols = set(&["h2", "http/1.1"]),
+                    "h1" => p.alpn_protocols = set(&["http/1.1"]),
+                    "h2" => p.alpn_protocols = set(&["h2"]),
+                    "reset" => p.alpn_protocols = set(&[]),
+                    // a patch that does not carry alpn_protocols
+                    _ => match rng.below(4) {
+                        0 => p.strict_sni_binding = Some(rng.below(2) == 0),
+                        1 => p.front_timeout = Some(50 + rng.below(20) as u32),
+                        2 => p.request_timeout = Some(8 + rng.below(8) as u32),
+                        _ => p.sticky_name = Some(format!("SOZUBALANCEID{}", rng.below(9))),
+                    },
+                }
+                // an alpn patch may carry other fields too
+                if p.alpn_protocols.is_some() && rng.below(3) == 0 { p.back_timeout = Some(25 + rng.below(10) as u32); }
+                (RequestType::UpdateHttpsListener(p), false)
+            }
+            x => panic!("listener op {x}"),
+        }
+    }
+
+    pub struct Outcome {
+        pub violation: Option<(String, Value)>,
+        /// no verdict (deadline, port stolen, ...): the run is void
+        pub void: Option<String>,
+        pub events: Vec<Value>,
+        pub steps_done: usize,
+    }
+
+    #[derive(Default)]
+    pub struct LStats {
+        pub histories: AtomicU64, pub void_runs: AtomicU64, pub commands: AtomicU64, pub handshakes: AtomicU64,
+        pub served_loaded: AtomicU64, pub served_default: AtomicU64, pub refused_as_predicted: AtomicU64, pub served_while_not_active: AtomicU64,
+        pub deviation_steps: AtomicU64, pub alpn_h1: AtomicU64, pub alpn_h2: AtomicU64, pub alpn_mismatch: AtomicU64,
+        pub tls12: AtomicU64, pub tls13: AtomicU64, pub tls_version_mismatch: AtomicU64, pub two_listeners_active_steps: AtomicU64,
+        pub listener_ops: AtomicU64, pub alpn_patches_on_loaded: AtomicU64, pub readds_on_loaded: AtomicU64, pub reactivations_on_loaded: AtomicU64,
+    }
+
+    /// Execute one history on a fresh real worker. `steps` carry the spec's predictions (S->I) or not (I->S).
+    pub fn run(g: &Graph, c: &Conc, steps: &[LStep], seed: u64, patience: u32, st: &LStats, name: &str) -> Outcome {
+        let t = Duration::from_secs(6 * patience as u64);
+        let mut rng = Rng::new(seed);
+        let mut out = Outcome { violation: None, void: None, events: vec![json!({"ev": "reset"})], steps_done: 0 };
+        let n_addr = steps.iter().map(|s| s.op.a).max().unwrap_or(1).max(steps.iter().filter_map(|s| s.exp.as_ref().map(|e| e.len())).max().unwrap_or(1));
+        let addrs: Vec<SocketAddr> = (0..n_addr).map(|_| free_addr()).collect();
+        let mut w = Worker::start_empty(name);
+        let cl = client();
+        // projection helper: which listeners exist / are active according to the answered commands
+        let mut status: Vec<&'static str> = vec!["absent"; n_addr];
+        let mut had_certs: Vec<bool> = vec![false; n_addr];
+        st.histories.fetch_add(1, Ordering::Relaxed);
+        'steps: for (si, step) in steps.iter().enumerate() {
+            let o = &step.op;
+            let addr = addrs[o.a - 1];
+            let (rt, must_fail) = request(g, c, o, addr, &mut rng);
+            let resp = w.request(rt, t);
+            st.commands.fetch_add(1, Ordering::Relaxed);
+            let res = match resp.as_ref().map(|r| r.status) {
+                Some(x) if x == ResponseStatus::Ok as i32 => "ok",
+                Some(x) if x == ResponseStatus::Failure as i32 => "err",
+                Some(_) => "other",
+                None => { out.void = Some(format!("step {si}: no answer to {} within {t:?}", o.kind)); break 'steps; }
+            };
+            let want = if must_fail { "err" } else { "ok" };
+            if res != want {
+                let msg = resp.map(|r| r.message).unwrap_or_default();
+                // a port taken by somebody else between free_addr() and the bind is not sozu's doing
+                if o.kind == "activate" && (msg.contains("in use") || msg.contains("bind")) { out.void = Some(format!("step {si}: {msg}")); break 'steps; }
+                out.violation = Some(("listener:command-status".into(), json!({"step": si, "op": describe_lop(g, c, o), "answer": res, "expected": want, "message": msg})));
+                break 'steps;
+            }
+            match o.kind.as_str() {
+                "add_listener" => { status[o.a - 1] = "down"; if had_certs[o.a - 1] { st.readds_on_loaded.fetch_add(1, Ordering::Relaxed); } }
+                "remove_listener" => status[o.a - 1] = "absent",
+                "activate" => { status[o.a - 1] = "up"; if had_certs[o.a - 1] { st.reactivations_on_loaded.fetch_add(1, Ordering::Relaxed); } }
+                "deactivate" => status[o.a - 1] = "down",
+                "patch" => if o.k != "other" && had_certs[o.a - 1] { st.alpn_patches_on_loaded.fetch_add(1, Ordering::Relaxed); },
+                "add" | "replace" | "replace_badold" => had_certs[o.a - 1] = true,
+                _ => {}
+            }
+            if o.cert_kind().is_none() { st.listener_ops.fetch_add(1, Ordering::Relaxed); }
+            if status.iter().filter(|s| **s == "up").count() > 1 { st.two_listeners_active_steps.fetch_add(1, Ordering::Relaxed); }
+            // observe every address
+            let mut obs: Vec<Value> = Vec::new();
+            for (ai, a) in addrs.iter().enumerate() {
+                let exp = step.exp.as_ref().map(|e| &e[ai]);
+                let up = match exp { Some(e) => e.st == "up", None => status[ai] == "up" };
+                if let Some(e) = exp {
+                    if e.st != status[ai] { out.void = Some(format!("step {si}: the replayer's projection of listener {} is {:?}, the spec says {:?}", ai + 1, status[ai], e.st)); break 'steps; }
+                }
+                if !up {
+                    st.handshakes.fetch_add(1, Ordering::Relaxed);
+                    match handshake(c, &cl, *a, &c.probes[0], t) {
+                        Hs::Refused => { st.refused_as_predicted.fetch_add(1, Ordering::Relaxed); obs.push(json!({"st": "refused", "served": []})); }
+                        Hs::Timeout(e) => { out.void = Some(format!("step {si}: {e}")); break 'steps; }
+                        // an address that still answers although its listener is not active is not a C17 matter
+                        _ => { st.served_while_not_active.fetch_add(1, Ordering::Relaxed); obs.push(json!({"st": "other", "served": []})); }
+                    }
+                    continue;
+                }
+                let mut served: Vec<u8> = Vec::new();
+                for (i, p) in c.probes.iter().enumerate() {
+                    let sni = if rng.below(4) == 0 { mixed_case(p, &mut rng) } else { p.clone() };
+                    let mut got = handshake(c, &cl, *a, &sni, t);
+                    // the listening socket exists once ActivateListener is answered; all the same, be patient
+                    let mut tries = 0;
+                    while matches!(got, Hs::Refused) && tries < 3 { std::thread::sleep(Duration::from_millis(100 * patience as u64)); got = handshake(c, &cl, *a, &sni, t); tries += 1; }
+                    st.handshakes.fetch_add(1, Ordering::Relaxed);
+                    let detail = |what: &str, adm: Option<&Vec<u8>>| json!({"step": si, "op": describe_lop(g, c, o), "listener": ai + 1, "sni": sni,
+                        "observed": what, "admissible": adm, "listener_state": exp.map(|e| json!({"alpn": e.alpn, "tls": e.flav}))});
+                    match got {
+                        Hs::Timeout(e) => { out.void = Some(format!("step {si}: {e}")); break 'steps; }
+                        Hs::Refused => { out.violation = Some(("listener:refused-while-active".into(), detail("connection refused", None))); break 'steps; }
+                        Hs::Failed(e) => { out.violation = Some(("listener:handshake-failed".into(), detail(&e, exp.map(|e| &e.adm[i])))); break 'steps; }
+                        Hs::UnknownLeaf => { out.violation = Some(("listener:unknown-certificate".into(), detail("a certificate that was never loaded", exp.map(|e| &e.adm[i])))); break 'steps; }
+                        Hs::Served(f, alpn, tls13) => {
+                            served.push(f);
+                            if f == 0 { st.served_default.fetch_add(1, Ordering::Relaxed); } else { st.served_loaded.fetch_add(1, Ordering::Relaxed); }
+                            if let Some(e) = exp {
+                                if !e.adm[i].contains(&f) {
+                                    let class = if f == 0 { "listener:covered-name-gets-default" } else if e.adm[i] == [0] { "listener:uncovered-name-gets-certificate" } else { "listener:wrong-certificate" };
+                                    out.violation = Some((class.into(), detail(&format!("certificate {f}"), Some(&e.adm[i]))));
+                                    break 'steps;
+                                }
+                                // vacuity guards: the listener operations did reach the TLS context
+                                let want_alpn = if e.alpn == "h1" { "http/1.1" } else { "h2" };
+                                if alpn == want_alpn { if alpn == "h2" { st.alpn_h2.fetch_add(1, Ordering::Relaxed); } else { st.alpn_h1.fetch_add(1, Ordering::Relaxed); } }
+                                else { st.alpn_mismatch.fetch_add(1, Ordering::Relaxed); }
+                                let want13 = e.flav != "tls12";
+                                if tls13 == want13 { if tls13 { st.tls13.fetch_add(1, Ordering::Relaxed); } else { st.tls12.fetch_add(1, Ordering::Relaxed); } }
+                                else { st.tls_version_mismatch.fetch_add(1, Ordering::Relaxed); }
+                            }
+                        }
+                    }
+                }
+                if exp.map(|e| e.dev).unwrap_or(false) { st.deviation_steps.fetch_add(1, Ordering::Relaxed); }
+                obs.push(json!({"st": "serving", "served": served}));
+            }
+            out.events.push(json!({"ev": o.kind, "a": o.a, "v": o.v, "f": o.f, "k": o.k, "res": res, "obs": obs, "what": describe_lop(g, c, o)}));
+            out.steps_done = si + 1;
+        }
+        let _ = w.send_type(RequestType::HardStop(HardStop {}));
+        match w.join_within(Duration::from_secs(5 * patience as u64)) {
+            Err(msg) if out.violation.is_none() => out.violation = Some(("listener:worker-panic".into(), json!({"panic": msg}))),
+            _ => {}
+        }
+        if out.void.is_some() { st.void_runs.fetch_add(1, Ordering::Relaxed); }
+        out
+    }
+
+    /// I->S: a seeded random history chosen WITHOUT the specification (only a projection of which listeners
+    /// exist / are active, to send commands the worker accepts)
+    pub fn random_history(g: &Graph, n_addr: usize, len: usize, rng: &mut Rng) -> Vec<LStep> {
+        let mut status: Vec<&str> = vec!["absent"; n_addr];
+        let mut steps = Vec::new();
+        let nv = g.variants.len();
+        let op = |kind: &str, a: usize, v: usize, f: usize, k: &str| LOp { kind: kind.into(), a, v, f, k: k.into() };
+        while steps.len() < len {
+            let a = 1 + rng.below(n_addr);
+            let s = status[a - 1];
+            let o = match (s, rng.below(20)) {
+                ("absent", _) => { status[a - 1] = "down"; op("add_listener", a, 0, 0, ["default", "tls12", "tls13", "ciphers"][rng.below(4)]) }
+                ("down", 0..=4) => { status[a - 1] = "up"; op("activate", a, 0, 0, "") }
+                ("up", 0) => { status[a - 1] = "down"; op("deactivate", a, 0, 0, "") }
+                ("down", 5) | ("up", 1) => { status[a - 1] = "absent"; op("remove_listener", a, 0, 0, "") }
+                ("up", 2..=5) => op("patch", a, 0, 0, ["both", "h1", "h2", "reset", "other"][rng.below(5)]),
+                (_, 6..=11) => op("add", a, 1 + rng.below(nv), 0, ""),
+                (_, 12..=14) => op("replace", a, 1 + rng.below(nv), 1 + rng.below(g.nfp), ""),
+                (_, 15..=17) => op("remove", a, 0, 1 + rng.below(g.nfp), ""),
+                (_, 18) => op("replace_fail", a, 0, 1 + rng.below(g.nfp), ""),
+                _ => op("replace_badold", a, 1 + rng.below(nv), 0, ""),
+            };
+            steps.push(LStep { op: o, exp: None });
+        }
+        steps
+    }
+}
+
+fn describe_op(g: &Graph, c: &Conc, op: &Op) -> String {
+    let var = |v: usize| -> String {
+        let x = &g.variants[v - 1];
+        format!("cert#{}(fp{} names={:?} expiry={})", v, x.fp, x.names.iter().map(|n| c.names[*n as usize - 1].as_str()).collect::<Vec<_>>(), x.expiry)
+    };
+    match op.kind {
+        Kind::Add => format!("add {}", var(op.v)),
+        Kind::Remove => format!("remove fp{}", op.f),
+        Kind::Replace => format!("replace old=fp{} new={}", op.f, var(op.v)),
+        Kind::ReplaceFail => format!("replace old=fp{} new=<unusable certificate>", op.f),
+        Kind::ReplaceBadOld => format!("replace old=<not hex> new={}", var(op.v)),
+    }
+}
+
 fn mixed_case(s: &str, rng: &mut Rng) -> String {
     s.chars().map(|ch| if rng.below(2) == 0 { ch.to_ascii_uppercase() } else { ch }).collect()
 }
@@ -957,6 +1289,11 @@ fn main() {
     let mut input: Option<String> = None;
     let mut ops_arg = String::new();
     let mut trace_out = String::from("/verif/.work/C17/trace.ndjson");
+    let mut hist_path = String::new();
+    let mut patience: u32 = 1;
+    let mut only: Option<usize> = None;
+    let mut n_addr: usize = 2;
+    let mut seed_exact: Option<u64> = None;
     let mut i = 1;
     while i < args.len() {
         let val = || args.get(i + 1).cloned().unwrap_or_default();
@@ -975,6 +1312,11 @@ fn main() {
             "--trace-out" => { trace_out = val(); i += 1; }
             "--ops" => { ops_arg = val(); i += 1; }
             "--input" => { input = Some(val()); i += 1; }
+            "--hist" => { hist_path = val(); i += 1; }
+            "--patience" => { patience = val().parse().unwrap_or(1).max(1); i += 1; }
+            "--only" => { only = val().parse().ok(); i += 1; }
+            "--addrs" => { n_addr = val().parse().unwrap_or(2); i += 1; }
+            "--seed-exact" => { seed_exact = val().parse().ok(); i += 1; }
             _ => {}
         }
         i += 1;
@@ -1232,6 +1574,84 @@ fn main() {
         }
         let _ = g;
         worker_stats = json!({"observations": obs});
+    } else if mode == "listener" || mode == "listener-drive" {
+        // histories: from TLC (S->I, with predictions) or seeded random ones (I->S, recorded for TLC)
+        let drive = mode == "listener-drive";
+        let mut hists: Vec<Vec<lst::LStep>> = Vec::new();
+        if drive {
+            let mut rng = Rng::new(seed.wrapping_mul(977));
+            for _ in 0..walks { hists.push(lst::random_history(&sh.g, n_addr, len, &mut rng)); }
+        } else {
+            for l in BufReader::new(std::fs::File::open(&hist_path).expect("--hist file")).lines() {
+                let l = l.unwrap();
+                if l.trim().is_empty() { continue; }
+                hists.push(lst::parse_history(&serde_json::from_str(&l).expect("history json")));
+            }
+        }
+        let hists = Arc::new(hists);
+        let stats = Arc::new(lst::LStats::default());
+        let next = Arc::new(AtomicUsize::new(0));
+        let results: Arc<Mutex<BTreeMap<usize, lst::Outcome>>> = Arc::new(Mutex::new(BTreeMap::new()));
+        let mut handles = Vec::new();
+        for _t in 0..threads.max(1) {
+            let (sh, hists, stats, next, results) = (sh.clone(), hists.clone(), stats.clone(), next.clone(), results.clone());
+            handles.push(std::thread::spawn(move || loop {
+                let h = next.fetch_add(1, Ordering::SeqCst);
+                if h >= hists.len() { break; }
+                if let Some(o) = only { if o != h { continue; } }
+                // the concrete spelling of a history depends only on (seed, index): a re-run repeats it exactly
+                let r = catch_unwind(AssertUnwindSafe(|| lst::run(&sh.g, &sh.c, &hists[h], seed_exact.unwrap_or(seed.wrapping_mul(131).wrapping_add(h as u64)), patience, &stats, &format!("c17l{h}"))));
+                let out = match r {
+                    Ok(o) => o,
+                    Err(e) => lst::Outcome { violation: Some(("listener:harness-panic".into(), json!({"panic": vh::util::panic_message(e)}))), void: None, events: vec![], steps_done: 0 },
+                };
+                results.lock().unwrap().insert(h, out);
+            }));
+        }
+        for h in handles { h.join().unwrap(); }
+        let results = results.lock().unwrap();
+        let mut trace_file = if drive { Some(std::io::BufWriter::new(std::fs::File::create(&trace_out).expect("trace output file"))) } else { None };
+        let mut events = 0u64;
+        let mut voids: Vec<String> = Vec::new();
+        for (h, out) in results.iter() {
+            let ops: Vec<&lst::LOp> = hists[*h].iter().map(|s| &s.op).collect();
+            if let Some((class, detail)) = &out.violation {
+                *sh.classes.lock().unwrap().entry(class.clone()).or_insert(0) += 1;
+                let mut vs = sh.violations.lock().unwrap();
+                if vs.len() < 100 {
+                    vs.push(json!({"kind": "violation", "class": class, "leg": mode, "concretisation": sh.c.label, "hist_index": h, "variant": variant, "seed": seed,
+                        "history": ops.iter().take(out.steps_done + 1).map(|o| lst::describe_lop(&sh.g, &sh.c, o)).collect::<Vec<_>>(),
+                        "listener_steps": ops.iter().map(|o| o.to_json()).collect::<Vec<_>>(), "detail": detail}));
+                }
+            }
+            if let Some(v) = &out.void { if voids.len() < 10 { voids.push(format!("history {h}: {v}")); } }
+            if out.violation.is_none() && out.void.is_none() {
+                use std::hash::{Hash, Hasher};
+                let mut hh = std::collections::hash_map::DefaultHasher::new();
+                for o in &ops { (o.kind.as_str(), o.a, o.v, o.f, o.k.as_str()).hash(&mut hh); }
+                sh.distinct.lock().unwrap().insert(hh.finish());
+                *sh.histories_by_len.lock().unwrap().entry(ops.len()).or_insert(0) += 1;
+            }
+            if let Some(f) = trace_file.as_mut() {
+                // only completely observed events are recorded; a void run simply ends early
+                for e in &out.events { let _ = writeln!(f, "{}", e); events += 1; }
+            }
+        }
+        if let Some(mut f) = trace_file { f.flush().unwrap(); }
+        let ld = |a: &AtomicU64| a.load(Ordering::SeqCst);
+        worker_stats = json!({"histories": ld(&stats.histories), "void_runs": ld(&stats.void_runs), "void_examples": voids, "commands": ld(&stats.commands),
+            "listener_operations": ld(&stats.listener_ops), "tcp_tls_handshakes": ld(&stats.handshakes),
+            "served_loaded_certificate": ld(&stats.served_loaded), "served_default_certificate": ld(&stats.served_default),
+            "refused_as_predicted": ld(&stats.refused_as_predicted), "served_while_not_active": ld(&stats.served_while_not_active),
+            "steps_showing_open_deviation": ld(&stats.deviation_steps),
+            "alpn_http11_as_predicted": ld(&stats.alpn_h1), "alpn_h2_as_predicted": ld(&stats.alpn_h2), "alpn_mismatch": ld(&stats.alpn_mismatch),
+            "tls12_as_predicted": ld(&stats.tls12), "tls13_as_predicted": ld(&stats.tls13), "tls_version_mismatch": ld(&stats.tls_version_mismatch),
+            "steps_with_two_active_listeners": ld(&stats.two_listeners_active_steps),
+            "alpn_patches_after_certificates": ld(&stats.alpn_patches_on_loaded), "listener_readds_after_certificates": ld(&stats.readds_on_loaded),
+            "activations_after_certificates": ld(&stats.reactivations_on_loaded),
+            "trace_events": events, "trace_file": if drive { trace_out.clone() } else { String::new() }});
+        sh.stats.handshakes.store(ld(&stats.handshakes), Ordering::SeqCst);
+        sh.stats.histories.store(ld(&stats.histories), Ordering::SeqCst);
     } else if mode == "worker" {
         worker_stats = worker_leg(&sh, seed, walks, len);
     } else {
